@@ -31,6 +31,8 @@ def run(ctx):
     key_agreement(ctx, "C14.a.keys")
     b_opcodes(ctx)
     c_no_mutation(ctx)
+    d_subflow_resume(ctx)
+    e_assignment(ctx)
 
 
 # ---------------------------------------------------------------------------------
@@ -61,8 +63,12 @@ def offsets(ctx, rule):
                   "%s is computed as %r but the distance to the element it must reach is %r: the flow head lands on the wrong element (or outside the flow)" % (name, got, want), line=ln)
 
     # ---- if / else ----
+    if_runs = []
     for es, label in ((0, "no else"), (1, "with else")):
-        lay, env, dec, it = emit1.run_case(cases["if"], "if", esplit=es)
+        for lay, it, dec in emit1.run_case_all(cases["if"], "if", esplit=es):
+            extra = {k_: v_ for k_, v_ in dec.items() if k_ != "len(else_elements) > 0"}
+            if_runs.append((es, label + ("" if not extra else " / " + ", ".join("%s=%s" % (k_[:50], v_) for k_, v_ in sorted(extra.items()))), lay))
+    for es, label, lay in if_runs:
         items = lay.items
         ifel = [x for x in items if isinstance(x, El) and x.fields.get("_type") == "if"]
         if len(ifel) != 1:
@@ -346,3 +352,64 @@ def c_no_mutation(ctx):
                 ctx.check("C14.c.self-stores", RT1, q, first_line(a), ok,
                           "instance store inside _load_flow_config (dynamic flows created by a start_flow event: outside the structured subset of the property)" if ok else
                           "the runtime instance is modified while deciding the next step: later decisions depend on earlier calls", line=a.lineno)
+
+
+def d_subflow_resume(ctx):
+    """`do subflow` behaves like a call: the caller resumes when the callee has completed.  The resume loop
+    changes statuses while it runs (a resumed flow may complete at once and release ITS caller in the next
+    round), so the status of the interrupter must be read from the live flow states, never from a snapshot
+    taken before the loop."""
+    tf = ctx.tree.ast(FLOWS1)
+    fn = find_function(tf, "compute_next_state")
+    if fn is None:
+        raise AnalysisError("compute_next_state not found", anchor=FLOWS1 + "::compute_next_state")
+    loops = [w for w in ast.walk(fn) if isinstance(w, ast.While) and any(isinstance(a, ast.Assign) and src(a.targets[0]).endswith(".status") and "FlowStatus.ACTIVE" in src(a.value)
+                                                                         for a in ast.walk(w))
+             and any("INTERRUPTED" in src(c) for c in ast.walk(w))]
+    ctx.floor("C14.d.resume-live-status", FLOWS1, "resume loop of interrupted flows", len(loops), 1)
+    for w in loops:
+        # names read inside the loop that hold status information computed BEFORE the loop
+        before = []
+        for st in fn.body:
+            if st is w or (hasattr(st, "lineno") and st.lineno >= w.lineno):
+                break
+        snap = {}
+        for a in ast.walk(fn):
+            if isinstance(a, ast.Assign) and isinstance(a.targets[0], ast.Name) and a.lineno < w.lineno and ".status" in src(a.value) \
+                    and isinstance(a.value, (ast.DictComp, ast.ListComp, ast.SetComp, ast.Dict, ast.Call)) and "flow_states" in src(a.value):
+                snap[a.targets[0].id] = a
+        used = sorted({n.id for n in ast.walk(w) if isinstance(n, ast.Name) and n.id in snap})
+        # the live read: an inner scan of new_state.flow_states comparing uid with interrupted_by and reading .status
+        live = any(isinstance(f, ast.For) and "flow_states" in src(f.iter) and any(".status ==" in src(c) or ".status==" in src(c) for c in ast.walk(f) if isinstance(c, ast.Compare))
+                   and any("interrupted_by" in src(c) for c in ast.walk(f) if isinstance(c, ast.Compare)) for f in ast.walk(w) if f is not w)
+        ok = not used and live
+        ctx.check("C14.d.resume-live-status", FLOWS1, "compute_next_state", "status of the interrupting flow", ok,
+                  "inside the resume loop the interrupter's status is read from the live flow states" if ok else
+                  "the resume loop decides with %s: statuses that change inside the loop (a resumed flow that completes at once) are not seen, so with subflow calls nested two deep the outer caller is never resumed" % (
+                      ("the snapshot `%s` taken before the loop" % used[0]) if used else "no live read of the interrupter's status"), line=w.lineno)
+
+
+def e_assignment(ctx):
+    """`$x = execute action` assigns the action's return value - whatever it is, None included."""
+    from ..coflow import evaluate, truth
+    tr = ctx.tree.ast(RT1)
+    fn = find_function(tr, "_process_start_action")
+    stores = [a for a in walk_no_nested(fn) if isinstance(a, ast.Assign) and isinstance(a.targets[0], ast.Subscript) and src(a.targets[0].slice) == "action_result_key"]
+    ctx.floor("C14.e.assignment", RT1, "store of the action result under the result key", len(stores), 1)
+    for st in stores:
+        guards = []
+        p = getattr(st, "_parent", None)
+        while p is not None and p is not fn:
+            if isinstance(p, ast.If) and any(st is x or st in list(ast.walk(x)) for x in p.body):
+                guards.append(p.test)
+            p = getattr(p, "_parent", None)
+        ok = True
+        why = "the result is recorded whenever a result key was given"
+        for g in guards:
+            for rv in (None, 0, "", False, [], "text"):
+                v = truth(evaluate(g, {"action_result_key": "x", "return_value": rv, "result": rv}))
+                if v is not True:
+                    ok = False
+                    why = "the store is guarded by `%s`, which is not true for return value %r: `$x = execute a` then keeps the OLD value of $x, unlike an assignment" % (first_line(g, 70), rv)
+        ctx.check("C14.e.assignment", RT1, qualname(fn), first_line(st), ok, why, line=st.lineno)
+        ctx.check("C14.e.assignment", RT1, qualname(fn), "value stored", src(st.value) == "return_value", "the value recorded is the action's return value", line=st.lineno)
